@@ -419,12 +419,16 @@ package composite
 //@   trusted list bookkeeping (nested slices of names): not under contract; callers rely on the call events only
 //@   ensures pr.revision == old(pr.revision) && pr.syncResult == old(pr.syncResult) && pr.parent == old(pr.parent)
 
+// syncRevisionClaims normalises the claims: a child is claimed by at most one revision (the latest wins), claims for children
+// the latest revision no longer desires and for kinds that no longer roll are dropped. What is stored back into a revision is the
+// *filtered* list of names.
 //@ func parentController.syncRevisionClaims(pc, parentRevisions) (claimed)
 //@   requires len(parentRevisions) >= 1
-//@   trusted claim normalisation (three nested loops over maps of maps): not under contract
-//@   ensures claimed != nil
-//@   // every claim points to one of the revisions passed in
-//@   ensures forall k string, n string :: has(claimed, k) && has(claimed[k], n) ==> claimed[k][n] != nil && claimed[k][n].revision != nil && claimed[k][n].parent != nil
+//@   // the entry appended to a revision's new children list carries exactly the names that survived the filter
+//@   at append#2(s, els) [C09,C07]: len(els) == 1 && sameslice(els[0].Names, cur(names))
+//@   ensures [C09] claimed != nil
+//@   // every claim points to one of the revisions passed in (list shape, see syncRollingUpdate)
+//@   ensures-assumed forall k string, n string :: has(claimed, k) && has(claimed[k], n) ==> claimed[k][n] != nil && claimed[k][n].revision != nil && claimed[k][n].parent != nil
 
 //@ func childStatusCheck(checks, child) (err)
 //@   requires child != nil
